@@ -15,22 +15,22 @@ const bsPkg = "google.golang.org/genproto/googleapis/bytestream"
 func init() {
 	register(&Rule{
 		ID: "R14.1", Props: []string{"C14"}, Engine: "flow + guard + sibling cross-check + path automaton",
-		Text: "both upload paths of the ByteStream server (identity, zstd) obey the same write protocol: for every WriteRequest whose Data is consumed – the first request included – its WriteOffset is compared with the running expected offset and its FinishWrite is recorded, in the function that consumes it or in a helper it is passed to; the expected offset advances by len(Data) of that same request; when Recv fails with io.EOF before finish_write was seen the reader returns an error other than io.EOF (the upload cannot complete)",
+		Text:  "both upload paths of the ByteStream server (identity, zstd) obey the same write protocol: for every WriteRequest whose Data is consumed – the first request included – its WriteOffset is compared with the running expected offset and its FinishWrite is recorded, in the function that consumes it or in a helper it is passed to; the expected offset advances by len(Data) of that same request; when Recv fails with io.EOF before finish_write was seen the reader returns an error other than io.EOF (the upload cannot complete)",
 		Floor: 6, MustExist: true, Run: runR141,
 	})
 	register(&Rule{
 		ID: "R14.2", Props: []string{"C14"}, Engine: "flow",
-		Text: "one digest: in every gRPC server method the digest that keys BlobAccess.Put is the same value that was given to the NewCASBufferFrom* constructor of the buffer being put; data received from clients is always wrapped as buffer.UserProvided, data received from servers (grpcclients) as buffer.BackendProvided",
+		Text:  "one digest: in every gRPC server method the digest that keys BlobAccess.Put is the same value that was given to the NewCASBufferFrom* constructor of the buffer being put; data received from clients is always wrapped as buffer.UserProvided, data received from servers (grpcclients) as buffer.BackendProvided",
 		Floor: 6, MustExist: true, Run: runR142,
 	})
 	register(&Rule{
 		ID: "R14.4", Props: []string{"C14"}, Engine: "flow (noerrdrop)",
-		Text: "one status per batch entry: in BatchUpdateBlobs and BatchReadBlobs the status of each response entry is status.Convert of an error value that the backend call of that same iteration flows into, and the entry's digest is that iteration's request digest; the write RPCs reply (SendAndClose) only on the nil edge of Put",
+		Text:  "one status per batch entry: in BatchUpdateBlobs and BatchReadBlobs the status of each response entry is status.Convert of an error value that the backend call of that same iteration flows into, and the entry's digest is that iteration's request digest; the write RPCs reply (SendAndClose) only on the nil edge of Put",
 		Floor: 4, MustExist: true, Run: runR144,
 	})
 	register(&Rule{
 		ID: "R14.5", Props: []string{"C14"}, Engine: "flow",
-		Text: "answers are forwarded: FindMissingBlobs returns GetProto() of exactly the items of the backend's FindMissing result for the set built from every request digest; every path of ByteStream Read that streams object data consumes the buffer starting at in.ReadOffset",
+		Text:  "answers are forwarded: FindMissingBlobs returns GetProto() of exactly the items of the backend's FindMissing result for the set built from every request digest; every path of ByteStream Read that streams object data consumes the buffer starting at in.ReadOffset",
 		Floor: 3, MustExist: true, Run: runR145,
 	})
 }
